@@ -129,6 +129,27 @@ def do_schema(task):
     return {"ok": out}
 
 
+def do_nested_levels(task):
+    """core._nested_levels on the schema the spec-level writer produces for a column description and a
+    definition-level array holding every level 0..max_def"""
+    import numpy as np
+    from harness import nestedfile as NF
+    from fastparquet import core
+    from fastparquet.schema import SchemaHelper
+    h = SchemaHelper(NF.schema_elements(task["cols"]))
+    out = []
+    for path in task["paths"]:
+        md = h.max_definition_level(path)
+        defi = np.array(list(range(md + 1)) + [md, 0], dtype="uint8")
+        null, d2, md2 = core._nested_levels(h, path, defi, md)
+        none_case = core._nested_levels(h, path, None, md)
+        out.append({"path": path, "max_def": md, "defi": [int(x) for x in defi], "null": bool(null),
+                    "defi_out": [int(x) for x in d2], "dtype": str(d2.dtype), "max_def_out": int(md2),
+                    "none_passthrough": none_case[1] is None and bool(none_case[0]) == bool(null) and int(none_case[2]) == int(md2),
+                    "path_types": [h.schema_element(path[:k + 1]).repetition_type for k in range(len(path))]})
+    return {"ok": out}
+
+
 def do_fixture(task):
     """A nested file written by someone else (repository test data): for every LIST/MAP leaf chunk made of v1 pages
     return the decoded page streams (levels and dereferenced values, decoded by fastparquet's own page reader) and
@@ -248,6 +269,8 @@ def main():
                 res = do_schema(task)
             elif task["op"] == "fixture":
                 res = do_fixture(task)
+            elif task["op"] == "nested_levels":
+                res = do_nested_levels(task)
             else:
                 res = {"exc": "unknown op"}
         except BaseException as e:      # noqa
